@@ -43,21 +43,25 @@ func numericTypeAtoms() []OutsideAtom {
 		}
 		// a value below zero (signed) or wrapped at the type's width (unsigned), widened back to 64 bits
 		add("chain", fmt.Sprintf("d := %s(x - y - 2)\n\tx = uint64(d)", T))
-		add("chain_via_u32", fmt.Sprintf("d := %s(w) - 12\n\tx = uint64(d)", T))
+		add("chain_via_u32", fmt.Sprintf("d := %s(w) - %s(z)\n\tx = uint64(d)", T, T))
 		add("inline", fmt.Sprintf("x = uint64(%s(x) - %s(y) - 2)", T, T))
-		add("arith_mul", fmt.Sprintf("d := %s(x) + 100\n\td = d * d * d * d\n\tx = uint64(d)", T))
+		add("arith_mul", fmt.Sprintf("d := %s(x) + %s(z)\n\te := d * d * d * d\n\tx = uint64(e)", T, T))
 		if T != "int" {
 			// signed arithmetic on int emitted as unsigned is the recorded finding c02-inttype-mistranslated
 			// (atom inttype); division, shift and ordered comparison of a negative int only restate it
-			add("div", fmt.Sprintf("d := %s(x) - 7\n\tx = uint64(d / 2)", T))
-			add("shift", fmt.Sprintf("d := %s(x) - 7\n\tx = uint64(d >> 1)", T))
-			add("compare", fmt.Sprintf("d := %s(x) - 7\n\tif d < %s(y) {\n\t\tx += 100\n\t}", T, T))
-			add("compare_zero", fmt.Sprintf("d := %s(x) - 7\n\tif d < 0 {\n\t\tx += 100\n\t}\n\tif d >= 0 {\n\t\tx += 1000\n\t}", T))
+			add("div", fmt.Sprintf("d := %s(x) - %s(z)\n\tx = uint64(d / %s(w))", T, T, T))
+			add("shift", fmt.Sprintf("d := %s(x) - %s(z)\n\tx = uint64(d >> (y %% 3))", T, T))
+			add("compare", fmt.Sprintf("d := %s(x) - %s(z)\n\tif d < %s(y) {\n\t\tx += 100\n\t}", T, T, T))
+			add("compare_zero", fmt.Sprintf("d := %s(x) - %s(z)\n\tzero := %s(x) - %s(x)\n\tif d < zero {\n\t\tx += 100\n\t}\n\tif d >= zero {\n\t\tx += 1000\n\t}", T, T, T, T))
 		}
 		add("var", fmt.Sprintf("var d %s = %s(x)\n\td = d - 7\n\tx = uint64(d / 2)", T, T))
-		add("to_u32", fmt.Sprintf("d := %s(x) - 7\n\tw = uint32(d)\n\tx += uint64(w)", T))
-		add("to_byte", fmt.Sprintf("d := %s(x) - 7\n\tz = byte(d)\n\tx += uint64(z)", T))
-		add("from_byte", fmt.Sprintf("d := %s(z)\n\td = d + d\n\tx += uint64(d)", T))
+		add("to_u32", fmt.Sprintf("d := %s(x) - %s(z)\n\tw = uint32(d)\n\tx += uint64(w)", T, T))
+		add("to_byte", fmt.Sprintf("d := %s(x) - %s(w)\n\tz = byte(d)\n\tx += uint64(z)", T, T))
+		add("from_byte", fmt.Sprintf("d := %s(z)\n\te := d + d\n\tx += uint64(e)", T))
+		add("no_conversion_back", fmt.Sprintf("d := %s(x) - %s(z)\n\tif d == %s(y) {\n\t\tx += 100\n\t} else {\n\t\tx += 1\n\t}", T, T, T))
+		if T != "int" {
+			add("only_in_condition", fmt.Sprintf("if %s(x)-%s(z) > %s(y) {\n\t\tx += 100\n\t}", T, T, T))
+		}
 		add("index", fmt.Sprintf("d := %s(x %% 3)\n\tx += s[d]", T))
 		add("makelen", fmt.Sprintf("d := %s(x%%3 + 1)\n\tt := make([]uint64, d)\n\tx += uint64(len(t))", T))
 		add("loopvar", fmt.Sprintf("for d := %s(2); d >= 0; d-- {\n\t\tx += 1\n\t\tif x > 1000 {\n\t\t\tbreak\n\t\t}\n\t}", T))
@@ -132,7 +136,7 @@ func acceptedShapeAtoms() []OutsideAtom {
 		st("clone_append_empty_literal_bytes", "cb := append([]byte{}, bs...)\n\tbs[0] = 42\n\tx += uint64(cb[0]) + uint64(bs[0])"),
 		st("clone_append_nil_var", "var cl []uint64\n\tcl = append(cl, s...)\n\ts[1] = 77\n\tx += cl[1] + s[1]"),
 		st("clone_append_make0", "cl := append(make([]uint64, 0), s...)\n\tcl[2] = 55\n\tx += cl[2] + s[2]"),
-		st("append_spread_self", "t := make([]uint64, 2)\n\tt[0] = x\n\tt = append(t, t...)\n\tt[0] = 5\n\tx += t[2] + uint64(len(t))"),
+		st("append_spread_self", "var t = make([]uint64, 2)\n\tt[0] = x\n\tt = append(t, t...)\n\tt[0] = 5\n\tx += t[2] + uint64(len(t))"),
 		st("bare_block", "{\n\t\tt := x + 1\n\t\tx = t * 2\n\t}\n\tx += 1"),
 		st("empty_block", "{\n\t}\n\tx += 1"),
 		st("empty_stmt", ";\n\tx += 1"),
@@ -142,7 +146,7 @@ func acceptedShapeAtoms() []OutsideAtom {
 		st("for_cond_post", "for ; x < 7; x++ {\n\t\ts[1] += 2\n\t}\n\tx += s[1]"),
 		st("for_only_init", "for i := uint64(3); ; {\n\t\tx += i\n\t\tif x > 6 {\n\t\t\tbreak\n\t\t}\n\t}"),
 		st("for_init_cond", "for i := x; i < 6; {\n\t\ti = i + 2\n\t\tx += i\n\t}"),
-		st("func_type_conversion", "type ft func(uint64) uint64\n\tg := ft(func(v uint64) uint64 {\n\t\treturn v + 5\n\t})\n\tx = g(x)"),
+		st("func_type_conversion", "g := FnT(func(v uint64) uint64 {\n\t\treturn v + 5\n\t})\n\tx = g(x)"),
 		st("func_nil_compare", "var g func(uint64) uint64\n\tif g == nil {\n\t\tx += 3\n\t}"),
 		st("iface_literal_var", "var i interface {\n\t\tM() uint64\n\t}\n\tif i == nil {\n\t\tx += 3\n\t}"),
 		st("ptr_to_ptr", "pp := new(*uint64)\n\t*pp = q\n\t**pp = **pp + 4\n\tx += *q"),
@@ -168,7 +172,7 @@ func acceptedShapeAtoms() []OutsideAtom {
 		st("nil_ptr_compare", "var np *H\n\tif np == nil {\n\t\tx += 3\n\t}\n\tif p != nil {\n\t\tx += 5\n\t}"),
 		st("nil_map_compare", "var nm map[uint64]uint64\n\tif nm == nil {\n\t\tx += 3\n\t}"),
 		st("nil_on_left_nilptr", "var np *H\n\tvar nq *uint64\n\tif nil == np {\n\t\tx += 3\n\t}\n\tif nil != nq {\n\t\tx += 5\n\t}\n\tif nil == s {\n\t\tx += 7\n\t}"),
-		st("nil_named_ptr", "type np2 *uint64\n\tvar v np2\n\tif v == nil {\n\t\tx += 3\n\t}"),
+		st("nil_named_ptr", "var v PtrU\n\tif v == nil {\n\t\tx += 3\n\t}\n\tvar v2 PtrU = q\n\tif v2 != nil {\n\t\tx += 5\n\t}"),
 		st("nil_on_left", "if nil == p {\n\t\tx += 3\n\t}\n\tif nil != q {\n\t\tx += 5\n\t}"),
 		st("const_on_left", "if 3 >= x {\n\t\tx += 100\n\t}\n\tif 3 < x {\n\t\tx += 1000\n\t}\n\tif Limit >= x+997 {\n\t\tx += 7\n\t}"),
 		st("const_on_left_eq", "if 3 == x {\n\t\tx += 100\n\t}\n\tif 4 != x {\n\t\tx += 1000\n\t}\n\tif 3 <= x {\n\t\tx += 7\n\t}\n\tif 3 > x {\n\t\tx += 9\n\t}"),
